@@ -39,10 +39,16 @@ func init() {
 			{ID: "R02.7", Template: "T-MUSTPASS", Text: "the elision cache is merged conservatively at joins: every predecessor takes part, the minimum bound is kept", Min: 2},
 			{ID: "R02.8", Template: "T-CONSULT", Text: "a memory import is linked only when declared and actual sharedness are equal (the compiler omits the base reload for memories declared shared)", Min: 1},
 			{ID: "R02.9", Template: "T-WIDTH", Text: "32-bit address arithmetic in front of an interpreter memory accessor is guarded against wrap-around (genuine defect found and fixed: v128.load)", Min: 2},
+			{ID: "R02.10", Template: "T-WIDTH", Text: "every frontend load of a memory's byte length is 64 bits wide, as the module engine writes it (known findings: three 32-bit loads)", Min: 4},
+			{ID: "R02.11", Template: "T-REPR", Text: "amd64 sign-extending narrow loads extend to 32 bits for i32 results (genuine defect found and fixed)", Min: 1},
+			{ID: "R02.12", Template: "T-CONSULT", Text: "the published base of a local memory is withheld only without a backing array (genuine defect found and fixed)", Min: 1},
 			{ID: "R02.6", Template: "T-WIDTH", Text: "interpreter lowering and execution arms agree with the mnemonic's width", Min: 100},
 		},
 		Run: runC02,
 		Controls: []core.Control{
+			{Name: "sload8-64bit-for-i32", File: "internal/engine/wazevo/backend/isa/amd64/machine.go", Old: "\tcase op == ssa.OpcodeSload8 && !dst64bit:\n\t\tload.asMovsxRmR(extModeBL, mem, dst)", New: "\tcase op == ssa.OpcodeSload8 && !dst64bit:\n\t\tload.asMovsxRmR(extModeBQ, mem, dst)", Rule: "R02.11", Substr: "lowerExtLoad"},
+			{Name: "shared-base-withheld-while-empty", File: "internal/engine/wazevo/module_engine.go", Old: "\tif cap(mem.Buffer) > 0 {", New: "\tif len(mem.Buffer) > 0 {", Rule: "R02.12", Substr: "putLocalMemory"},
+			{Name: "imported-memory-length-32bit", File: "internal/engine/wazevo/frontend/lower.go", Old: "\t\t\tloadBufSizePtr.AsLoad(memInstPtr, memoryInstanceBufSizeOffset, ssa.TypeI64)", New: "\t\t\tloadBufSizePtr.AsExtLoad(ssa.OpcodeUload32, memInstPtr, memoryInstanceBufSizeOffset, true)", Rule: "R02.10", Substr: "getMemoryLenValue"},
 			{Name: "store64-lane-checked-as-4", File: "internal/engine/wazevo/frontend/lower.go", Old: "storeOp, lane, opSize = ssa.OpcodeStore, ssa.VecLaneI64x2, 8", New: "storeOp, lane, opSize = ssa.OpcodeStore, ssa.VecLaneI64x2, 4", Rule: "R02.1", Substr: "OpcodeVecV128Store64Lane"},
 			{Name: "i64-load32-checked-as-2", File: "internal/engine/wazevo/frontend/lower.go", Old: "\t\tcase wasm.OpcodeI64Load32S, wasm.OpcodeI64Load32U:\n\t\t\topSize = 4\n", New: "\t\tcase wasm.OpcodeI64Load32S, wasm.OpcodeI64Load32U:\n\t\t\topSize = 2\n", Rule: "R02.1", Substr: "OpcodeI64Load32"},
 			{Name: "v128-load-without-check", File: "internal/engine/wazevo/frontend/lower.go", Old: "\t\t\taddr := c.memOpSetup(baseAddr, uint64(offset), 16)\n\t\t\tload := builder.AllocateInstruction()\n\t\t\tload.AsLoad(addr, offset, ssa.TypeV128)", New: "\t\t\taddr := builder.AllocateInstruction().AsIadd(c.getMemoryBaseValue(false), builder.AllocateInstruction().AsUExtend(baseAddr, 32, 64).Insert(builder).Return()).Insert(builder).Return()\n\t\t\tload := builder.AllocateInstruction()\n\t\t\tload.AsLoad(addr, offset, ssa.TypeV128)", Rule: "R02.1", Substr: "OpcodeVecV128Load "},
@@ -74,6 +80,9 @@ func runC02(c *core.Ctx) {
 	checkElisionMerge(c, "R02.7")
 	checkSharednessRelation(c, "R02.8")
 	checkAddressWrapGuards(c)
+	checkMemoryLengthWidth(c)
+	checkSignedExtLoads32(c)
+	checkSharedBaseConstant(c)
 }
 
 // ---------------------------------------------------------------------------------------------------------
@@ -1156,4 +1165,200 @@ func boundsHelpers(p *packages.Package) (setup, rng map[*types.Func]bool) {
 		}
 	}
 	return
+}
+
+// ---------------------------------------------------------------------------------------------------------
+// R02.10 – R02.12 (defects found by the bug hunt of the last session)
+
+// checkMemoryLengthWidth (R02.10): a linear memory is up to 65536 pages = 2^32 bytes long, which does not fit 32 bits: the
+// module engine writes the byte length as a 64-bit word, so every load of it in the frontend must be 64 bits wide.
+func checkMemoryLengthWidth(c *core.Ctx) {
+	p := c.Pkg("internal/engine/wazevo/frontend")
+	if p == nil {
+		return
+	}
+	info := p.TypesInfo
+	isLenAnchor := func(e ast.Expr) string {
+		found := ""
+		ast.Inspect(e, func(x ast.Node) bool {
+			switch y := x.(type) {
+			case *ast.Ident:
+				if o, ok := info.Uses[y].(*types.Const); ok && o.Name() == "memoryInstanceBufSizeOffset" {
+					found = "imported memory (MemoryInstance.Buffer length word)"
+				}
+			case *ast.SelectorExpr:
+				if f, ok := info.Uses[y.Sel].(*types.Func); ok && f.Name() == "LocalMemoryLen" {
+					found = "local memory (module context length word)"
+				}
+			}
+			return true
+		})
+		return found
+	}
+	n := 0
+	core.AllFuncDecls(p, func(fd *ast.FuncDecl) {
+		ord := map[string]int{}
+		ast.Inspect(fd.Body, func(x ast.Node) bool {
+			call, ok := x.(*ast.CallExpr)
+			if !ok {
+				return true
+			}
+			f := core.Callee(info, call)
+			if f == nil {
+				return true
+			}
+			var which string
+			for _, a := range call.Args {
+				if w := isLenAnchor(a); w != "" {
+					which = w
+				}
+			}
+			if which == "" {
+				return true
+			}
+			width := int64(-1)
+			switch f.Name() {
+			case "AsLoad":
+				if len(call.Args) == 3 {
+					if b, ok := ssaTypeBytes[typeConstName(info, call.Args[2])]; ok {
+						width = b
+					}
+				}
+			case "AsExtLoad":
+				if len(call.Args) >= 1 {
+					switch constNameOf(info, call.Args[0]) {
+					case "OpcodeUload8", "OpcodeSload8":
+						width = 1
+					case "OpcodeUload16", "OpcodeSload16":
+						width = 2
+					case "OpcodeUload32", "OpcodeSload32":
+						width = 4
+					}
+				}
+			default:
+				return true // the constant feeding an address computation (atomic loads of shared memories: always 8 bytes, R02.4)
+			}
+			ord[which]++
+			n++
+			construct := fmt.Sprintf("%s: load #%d of the byte length of the %s is 64 bits wide", fd.Name.Name, ord[which], which)
+			if width < 0 {
+				c.Undecided("R02.10", construct, call.Pos(), "load width not recognised")
+				return true
+			}
+			c.Check(width == 8, "R02.10", construct, call.Pos(), "8-byte load",
+				fmt.Sprintf("%d-byte load of the length word: for a 65536-page (4GiB) memory the low half is 0, so memory.size returns 0 / every access of the defining instance traps while an importer of the same memory (which reads 64 bits) can access it", width))
+			return true
+		})
+	})
+	c.Count("memory_length_loads", n)
+	if n == 0 {
+		c.Undecided("R02.10", "loads of the memory length", 0, "none found (anchors LocalMemoryLen / memoryInstanceBufSizeOffset renamed?)")
+	}
+}
+
+func typeConstName(info *types.Info, e ast.Expr) string {
+	return constNameOf(info, e)
+}
+
+// checkSignedExtLoads32 (R02.11): the amd64 address folding uses the raw register of a 32-bit value as a 64-bit index
+// (R02.5), so the sign-extending narrow loads must extend to 32 bits only when their result is an i32.
+func checkSignedExtLoads32(c *core.Ctx) {
+	p := c.Pkg("internal/engine/wazevo/backend/isa/amd64")
+	if p == nil {
+		return
+	}
+	info := p.TypesInfo
+	found := false
+	core.AllFuncDecls(p, func(fd *ast.FuncDecl) {
+		mentions := map[string]bool{}
+		modes := map[string]map[string]bool{"asMovsxRmR": {}, "asMovzxRmR": {}}
+		ast.Inspect(fd.Body, func(x ast.Node) bool {
+			switch y := x.(type) {
+			case *ast.SelectorExpr:
+				if o, ok := info.Uses[y.Sel].(*types.Const); ok && (o.Name() == "OpcodeSload8" || o.Name() == "OpcodeSload16") {
+					mentions[o.Name()] = true
+				}
+			case *ast.CallExpr:
+				if f := core.Callee(info, y); f != nil && modes[f.Name()] != nil && len(y.Args) > 0 {
+					modes[f.Name()][constNameOf(info, y.Args[0])] = true
+				}
+			}
+			return true
+		})
+		if !mentions["OpcodeSload8"] || !mentions["OpcodeSload16"] || len(modes["asMovsxRmR"]) == 0 {
+			return
+		}
+		found = true
+		sx := modes["asMovsxRmR"]
+		clean := sx["extModeBL"] && sx["extModeWL"] || modes["asMovzxRmR"]["extModeLQ"] && !sx["extModeLQ"]
+		c.Check(clean, "R02.11", "amd64 "+fd.Name.Name+": i32.load8_s/i32.load16_s leave the upper half of the register zero", fd.Pos(),
+			"32-bit sign extensions (movsx.bl, movsx.wl) are emitted for i32 results",
+			"only 64-bit sign extensions (movsx.bq/movsx.wq) are emitted for Sload8/Sload16: a negative i32 result leaves all ones in the upper half of its register, which the folded UExtend of an address uses as a 64-bit index (R02.5): with the bounds check elided the access goes below the linear memory")
+	})
+	if !found {
+		c.Undecided("R02.11", "amd64 lowering of sign-extending narrow loads", 0, "not found")
+	}
+}
+
+// checkSharedBaseConstant (R02.12): the frontend never reloads the base of a shared memory (R02.2/R02.8), so the base the
+// module engine publishes must be the final one from the start: it may only be withheld when there is no backing array.
+func checkSharedBaseConstant(c *core.Ctx) {
+	p := c.Pkg(wzv)
+	if p == nil {
+		return
+	}
+	info := p.TypesInfo
+	n := 0
+	core.AllFuncDecls(p, func(fd *ast.FuncDecl) {
+		writesOpaque := false
+		ast.Inspect(fd.Body, func(x ast.Node) bool {
+			if call, ok := x.(*ast.CallExpr); ok {
+				if f := core.Callee(info, call); f != nil && f.Name() == "PutUint64" {
+					writesOpaque = true
+				}
+			}
+			return true
+		})
+		if !writesOpaque {
+			return
+		}
+		ast.Inspect(fd.Body, func(x ast.Node) bool {
+			is, ok := x.(*ast.IfStmt)
+			if !ok {
+				return true
+			}
+			takesBase := false
+			ast.Inspect(is.Body, func(y ast.Node) bool {
+				if u, ok := y.(*ast.UnaryExpr); ok && u.Op == token.AND && strings.Contains(core.ExprStr(u.X), ".Buffer[") {
+					takesBase = true
+				}
+				return true
+			})
+			if !takesBase {
+				return true
+			}
+			usesLen, usesCap := false, false
+			ast.Inspect(is.Cond, func(y ast.Node) bool {
+				if id, ok := y.(*ast.Ident); ok {
+					if b, ok := info.Uses[id].(*types.Builtin); ok {
+						switch b.Name() {
+						case "len":
+							usesLen = true
+						case "cap":
+							usesCap = true
+						}
+					}
+				}
+				return true
+			})
+			n++
+			c.Check(usesCap && !usesLen, "R02.12", "the memory base published by "+fd.Name.Name+" is withheld only when there is no backing array", is.Pos(),
+				"the guard tests cap(Buffer)", "the guard `"+core.ExprStr(is.Cond)+"` withholds the base (publishes 0) while the memory is empty: a shared memory's backing array is already at its final address and compiled code never reloads a shared memory's base after a call, so after the first grow accesses go to host address 0+addr")
+			return true
+		})
+	})
+	c.Count("published_memory_bases", n)
+	if n == 0 {
+		c.Undecided("R02.12", "publication of the local memory base", 0, "not found")
+	}
 }
